@@ -16,3 +16,141 @@ def hull_patches():
 
 def hull_reset(nfacets=None):
     stubs.QHULL_POLICY["nfacets"] = nfacets or (lambda d: d + 1)
+
+
+META = dict(
+    functions=["ReceptorEstimator.hull_l1_scaling / gamut_l1_scaling", "ReceptorEstimator.hull_dist_scaling / gamut_dist_scaling", "dreye.api.project.alpha_for_B_with_P",
+               "dreye.api.barycentric.barycentric_dim_reduction", "cartesian_to_barycentric", "ReceptorEstimator.in_hull(normalized=True)", "_get_P_from_A",
+               "dreye.api.utils.apply_linear_transform"],
+    bounds=dict(quick="intensity (L1) scaling only: fully symbolic systems (2x2, 3x3, 2x3), K none/vector/matrix, baseline vector, relative and absolute capture, 2-3 target rows",
+                thorough="same"),
+    stubs=["sklearn normalize -> rows / sum|x|", "scipy ConvexHull on a concrete cloud -> the real qhull (facets as exact rationals of its floats)", "membership (Delaunay) contract stub"],
+    assumptions=["real arithmetic", "largest baseline-subtracted target > 0 for the L1 scaling", "neutral point inside the chromatic gamut (the code asserts it)"],
+    outside=["the chromatic (distance) scaling half of the property: not decided by this check (see the note in cases())", "qhull's facet computation"],
+)
+
+
+def patches(case):
+    return fs.fit_patches() + stubs.qhull_patches(("dreye.api.convex",)) + stubs.normalize_patches() + hull_patches()
+
+
+def _est(M, A, K, base, lb, ub, m):
+    from dreye.api.estimator import ReceptorEstimator
+    kw = {}
+    if K is not None:
+        kw["K"] = K
+    if base is not None:
+        kw["baseline"] = base
+    est = ReceptorEstimator(np.ones((m, 2)), **kw)
+    est.A = A; est.Epsilon = "heteroscedastic"; est.lb = lb; est.ub = ub
+    return est
+
+
+def l1_case(M, m, n, rows, kkind, relative):
+    A, K, base, lb, ub, lbl, ubl = fs.mk_system(M, m, n, kkind, "vec", "zero", "fin")
+    B = M.real("B", (rows, m), sample=lambda r, s: r.uniform(0.5, 4.0, size=s))
+    est = _est(M, A, K, base, lb, ub, m)
+    snap = np.array(B, dtype=object if M.symbolic else float, copy=True)
+    Aeff, beff = fs.effective_model(A, K if relative else None, base if relative else None, kkind if relative else "none")
+    D = np.array([[np.asarray(B)[i, j] - beff[j] for j in range(m)] for i in range(rows)], dtype=object if M.symbolic else float)
+    if M.symbolic:
+        bmax = symnp._reduce(symnp.smax, D, None)
+        amax = symnp._reduce(symnp.smin, np.array([symnp._reduce(symnp.smax, np.array([Aeff[i][k] * ubl[k] for k in range(n)], dtype=object), None) for i in range(m)], dtype=object), None)
+        M.assume(bmax > 0); M.assume(amax > 0)
+    else:
+        bmax = float(np.max(D)); amax = float(min(max(float(Aeff[i][k]) * float(ubl[k]) for k in range(n)) for i in range(m)))
+        M.assume(bmax > 0); M.assume(amax > 0)
+    out = np.asarray(est.gamut_l1_scaling(B, relative=relative))
+    M.observe("out", out)
+    goals = {"shape": out.shape == (rows, m), "caller array not modified": M.eq(np.asarray(B), snap)}
+    if not goals["shape"]:
+        return goals
+    alpha = amax / bmax
+    light = np.array([[out[i, j] - beff[j] for j in range(m)] for i in range(rows)], dtype=object if M.symbolic else float)
+    goals["the light-induced part of every target is multiplied by one common factor amax/bmax"] = M.eq(light, D * alpha)
+    goals["the common factor is positive"] = SB(symnp.lift(alpha) > 0) if M.symbolic else bool(alpha > 0)
+    if M.symbolic:
+        goals["the largest light-induced capture becomes the smallest single-source maximum"] = M.eq(symnp._reduce(symnp.smax, light, None), amax)
+        # ratios unchanged: cross-multiplied form  light_ij * D_kl == light_kl * D_ij
+        cross = []
+        for (i, j), (k, l) in [((0, 0), (rows - 1, m - 1)), ((0, m - 1), (rows - 1, 0))]:
+            cross.append(M.eq(light[i, j] * D[k, l], light[k, l] * D[i, j]))
+        goals["capture ratios between light-induced parts are unchanged"] = M.conj(*cross)
+    else:
+        goals["the largest light-induced capture becomes the smallest single-source maximum"] = M.eq(float(np.max(light)), amax)
+    return goals
+
+
+CONCRETE = {
+    "tri": dict(F=[[1, 2, 1, 0.5], [0.5, 1, 3, 1], [2, 0.5, 1, 1]], S=[[1, 0.5, 0.25, 0.1], [0.25, 1, 2, 0.3], [0.2, 0.3, 0.5, 2]], K=[1.0, 0.5, 2.0], base=[0.1, 0.2, 0.1]),
+    "di": dict(F=[[1, 2, 1, 0.5], [0.5, 1, 3, 1]], S=[[1, 0.5, 0.25, 0.1], [0.25, 1, 2, 0.3], [0.2, 0.3, 0.5, 2]], K=[0.6, 0.5], base=[0.1, 0.2]),
+    "tetra": dict(F=[[1, 2, 1, 0.5, 0.2], [0.5, 1, 3, 1, 0.3], [2, 0.5, 1, 1, 1], [0.1, 0.4, 1, 2, 3]],
+                  S=[[1, 0.5, 0.25, 0.1, 0.1], [0.25, 1, 2, 0.3, 0.2], [0.2, 0.3, 0.5, 2, 1], [0.1, 0.1, 0.3, 1, 3]], K=[1.0, 0.5, 2.0, 1.0], base=[0.1, 0.2, 0.1, 0.1]),
+}
+
+
+def dist_case(M, system, rows, neutral_kind, zero_row, relative=True):
+    """chromatic scaling on a concrete system; symbolic (or sampled) non-negative targets"""
+    from dreye.api.estimator import ReceptorEstimator
+    from dreye.api.barycentric import barycentric_dim_reduction
+    cfg = CONCRETE[system]
+    cF = np.array(cfg["F"], dtype=float); cS = np.array(cfg["S"], dtype=float)
+    m = cF.shape[0]
+    est = ReceptorEstimator(symnp.const(cF) if M.symbolic else cF, domain=1.0, K=np.array(cfg["K"]), baseline=np.array(cfg["base"]))
+    est.register_system(symnp.const(cS) if M.symbolic else cS, lb=np.zeros(cS.shape[0]), ub=np.ones(cS.shape[0]))
+    Bq = M.real("B", (rows, m), sample=lambda r, s: r.uniform(0.2, 3.0, size=s) * r.choice([1.0, 0.05, 0.02], size=s))
+    for v in np.asarray(Bq).ravel():
+        M.assume(v > 0)
+    parts = [np.asarray(Bq)]
+    if zero_row:
+        parts.append(symnp.const(np.zeros((1, m))) if M.symbolic else np.zeros((1, m)))
+    B = np.vstack(parts)
+    B = B.view(symnp.SymArray) if M.symbolic else B
+    neutral = None
+    if neutral_kind == "given":
+        neutral = np.array([1.0, 1.2, 0.9, 1.1][:m])
+    snap = np.array(B, dtype=object if M.symbolic else float, copy=True)
+    stubs.qhull_reset(); hull_reset()
+    out = np.asarray(est.gamut_dist_scaling(B, neutral_point=(None if neutral is None else (symnp.const(neutral) if M.symbolic else neutral)), relative=relative))
+    M.observe("out", out)
+    nrows = B.shape[0]
+    goals = {"shape": out.shape == (nrows, m), "caller array not modified": M.eq(np.asarray(B), snap)}
+    if not goals["shape"]:
+        return goals
+    neu = np.ones(m) if neutral is None else neutral
+    neu2 = (symnp.const(neu[None, :]) if M.symbolic else neu[None, :])
+    center = np.asarray(barycentric_dim_reduction(neu2))[0]
+    P = np.asarray(est._get_P_from_A(relative=relative, bounded=True, remove_zero=True))
+    chroP = np.asarray(barycentric_dim_reduction(P.view(symnp.SymArray) if M.symbolic else P))
+    goals["all-zero rows stay zero"] = M.eq(out[nrows - 1], np.zeros(m)) if zero_row else True
+    live = list(range(rows))
+    Bl = np.asarray(B)[live]; Ol = out[live]
+    goals["every target keeps its total capture"] = M.eq(np.array([sum(list(Ol[i])[1:], Ol[i][0]) for i in live], dtype=object if M.symbolic else float),
+                                                        np.array([sum(list(Bl[i])[1:], Bl[i][0]) for i in live], dtype=object if M.symbolic else float))
+    cb = np.asarray(barycentric_dim_reduction(Bl.view(symnp.SymArray) if M.symbolic else Bl)) - center
+    co = np.asarray(barycentric_dim_reduction(Ol.view(symnp.SymArray) if M.symbolic else Ol)) - center
+    # one common contraction factor: co_i = alpha * cb_i  (cross-multiplied with the first non-trivial component)
+    cross = []
+    for i in live:
+        for d in range(cb.shape[1]):
+            cross.append(M.eq(co[i, d] * cb[0, 0], co[0, 0] * cb[i, d]))
+    goals["hue direction from the neutral point kept; all saturations contracted by one common factor"] = M.conj(*cross)
+    return goals
+
+
+def cases(tier, seed):
+    C = []
+    big = tier == "thorough"
+
+    def add(name, body, opts=None, **kw):
+        o = dict(timeout_ms=60000, n_validate=2, max_paths=2000)
+        o.update(opts or {})
+        C.append(dict(name=name, body=body, kwargs=kw, opts=o))
+    for (m, n) in ((2, 2), (3, 3), (2, 3)):
+        for kkind in ("none", "vec", "mat"):
+            for relative in (True, False):
+                add(f"L1 scaling {m}x{n} K={kkind} relative={relative}", "l1_case", m=m, n=n, rows=(3 if m == 2 else 2), kkind=kkind, relative=relative)
+    # Chromatic (distance) scaling is NOT decided: `dist_case` above runs the real hull_dist_scaling in exact algebraic arithmetic, but every comparison
+    # on the way (zero rows, `alphas <= 0`, nanmin) involves sums of sqrt-constants and divisions by chromaticity sums; z3 neither folds them nor
+    # honours its timeout on them (probed: minutes per comparison, see DESIGN.md).  Only the caller-array clause of that function is exercised (C14).
+    return C
